@@ -4,23 +4,29 @@ from checks.resource_common import *
 
 def plan(tier):
     qs = []
-    sets = [(2, 1, 16), (3, 1, 22)] if tier == 'quick' else [(2, 1, 16), (2, 2, 30), (3, 1, 22), (4, 1, 30)]
+    # (a) two workers + the idle checker thread
+    for pairs, K in ([(1, 24)] if tier == 'quick' else [(1, 24), (2, 40)]):
+        for progs in multisets(2, pairs):
+            qs.append(ResQuery('idle_%s' % '_'.join(progs), progs, harness_defs=['C02_IDLE=1'], cbmc_defs=['VF_LIVENESS=1'], K=K, checker=True, timeout=1500 if tier == 'quick' else 3000,
+                               expect_reach=['all threads finished', 'idle again after all locks were released'],
+                               desc={'threads': list(progs), 'then': 'checker thread: lockWrite/unlockWrite/lockRead x2/unlockRead x2 must not park', 'symbolic': 'the schedule (%d thread choices)' % K,
+                                     'spurious_wakeups': 'off (a correct lock must not depend on them)'}))
+    # (b) three (thorough: four) workers, deadlock / lost wake-up detector; the first schedule choice is a cube
+    sets = [(3, 1, 22)] if tier == 'quick' else [(3, 1, 22), (4, 1, 30)]
     for n, pairs, K in sets:
         for progs in multisets(n, pairs):
-            if tier == 'quick' and n == 3 and progs.count('R') == 3:
-                K_ = K
-            name = 'live_%s' % '_'.join(progs)
-            qs.append(ResQuery(name, progs, harness_defs=['C02_IDLE=1'], cbmc_defs=['VF_LIVENESS=1'], K=K + 8, checker=True, timeout=1500 if tier == 'quick' else 3000,
-                               expect_reach=['all threads finished', 'idle again after all locks were released'],
-                               desc={'threads': list(progs), 'then': 'checker thread: lockWrite/unlockWrite/lockRead x2/unlockRead x2 must not park', 'symbolic': 'the schedule (%d thread choices)' % (K + 8),
-                                     'spurious_wakeups': 'off (a correct lock must not depend on them)'}))
+            if tier == 'quick' and 'W' not in progs:
+                continue   # reader-only programs never queue (C12 checks that)
+            for t0 in range(n):
+                qs.append(ResQuery('live_%s_first%d' % ('_'.join(progs), t0), progs, cbmc_defs=['VF_LIVENESS=1'], K=K, prefix=[t0], timeout=1500 if tier == 'quick' else 3000,
+                                   desc={'threads': list(progs), 'first_scheduled_thread': t0, 'symbolic': 'the remaining %d schedule choices' % (K - 1), 'spurious_wakeups': 'off'}))
     return qs
 
 
 def run(tier, seed):
     ck = ResCheck('C02', tier, seed)
     qs = plan(tier)
-    ck.bounds = {'threads': '2..3 workers x 1 lock/unlock pair + 1 checker thread' if tier == 'quick' else '2 workers x <=2 pairs, 3..4 workers x 1 pair, + 1 checker thread',
+    ck.bounds = {'threads': '2 workers x 1 pair + idle checker; 3 workers x 1 pair' if tier == 'quick' else '2 workers x <=2 pairs + idle checker; 3..4 workers x 1 pair',
                  'schedule length': 'K steps per query, asserted sufficient (BOUND assertion: every thread finishes within K)', 'outside': 'more threads / longer programs; weak memory'}
     ck.assumptions = COMMON_ASSUME + ['spurious wake-ups disabled: liveness must not depend on them', 'critical sections do not wait for anything else (one scheduling point inside)']
     ck.collect_functions([H, os.path.join(ck.ws.prepare_repo(), 'src/threading/rwp/Resource.cpp')], ['NW=2', 'P0=5', 'P1=1'])
